@@ -1475,8 +1475,13 @@ class Stage:
 
         if "T" not in kwargs:
             ret._T = copy(self._T)
+        else:
+            # A horizon declared anew for this stage brings its own guess (or needs none)
+            ret._initial.pop(ret.T, None)
         if "t0" not in kwargs:
             ret._t0 = copy(self._t0)
+        else:
+            ret._initial.pop(ret.t0, None)
         ret._method = deepcopy(self._method)
         ret._method.T = None
         ret._method.t0 = None
